@@ -286,7 +286,9 @@ pub fn run_%(n)s_fwd(%(sig)s) -> (Vec<u8>, usize, usize) {
     (a.finalize(4).code(), pos, target)
 }
 pub fn run_%(n)s_far(%(sig)s) -> (Vec<u8>, usize, usize) {
-    let mut a = AssemblerArm64::new();
+    // the label is bound at byte distance 4*k, in general far beyond the end of the buffer
+    let mut a = prefilled_label();
+    a.set_position(4);
     let l = a.create_label();
     let pos = a.position();
     %(call)s
@@ -294,7 +296,6 @@ pub fn run_%(n)s_far(%(sig)s) -> (Vec<u8>, usize, usize) {
     a.set_position(target);
     a.bind_label(l);
     a.set_position_end();
-    a.emit_u32(%(fill)s);
     (a.finalize(4).code(), pos, target)
 }
 /// native only: forward reference over k REAL appended filler words (replay of far counterexamples)
@@ -328,7 +329,7 @@ def emit_label_harnesses(m):
     names = []
     for hk, two, kdom, uw, tier in (("fwd", "true", "k <= %d" % NEAR, 12, "thorough"),
                                     ("bwd", "false", "k <= %d" % NEAR, 12, "thorough"),
-                                    ("far", "true", "k < (1u32 << 29)", 8, "quick")):
+                                    ("far", "true", "k < (1u32 << 29)", 12, "quick")):
         o.append("""#[kani::proof]
 #[kani::unwind(%(uw)d)]
 %(stub)sfn %(hk)s__%(n)s() {
@@ -341,7 +342,7 @@ def emit_label_harnesses(m):
     assert!(post_%(n)s(&code, pos, target, %(two)s, %(a2)sk), "POST branch reaches the bound label");
 }
 """ % {"uw": uw, "hk": hk, "n": m.name, "decl": decl_symbolic(m), "kdom": kdom, "args": args, "a2": a2, "two": two,
-       "stub": "" if hk == "far" else "#[kani::stub(std::vec::Vec::reserve, crate::support::reserve_once_label)]\n"})
+       "stub": "#[kani::stub(std::vec::Vec::reserve, crate::support::reserve_once_label)]\n"})
         names.append(("%s__%s" % (hk, m.name), m.name, hk, tier))
     return "\n".join(o), names
 
